@@ -1,4 +1,5 @@
 """C02 — Scanner yields exactly the positions scoring at or above the threshold."""
+from translate import scan_skel
 
 
 def _fields(line):
@@ -44,6 +45,21 @@ def histogram(line):
     keys.append("thr=" + ("default" if f.get("thr") == "d" else "set"))
     if "4" in f.get("seq", ""):
         keys.append("has-wildcard")
+    if m >= 100:
+        keys.append("wide-motif(M>=100)")
+    if b > 0 and r % b != 0 and wrap >= m - 1 + (b - r % b):
+        keys.append("spare-wrap-rows-for-a-full-last-block")
+    if "sw" in f and f["sw"] != "-":
+        keys.append("setters-changed-between-calls")
+    try:
+        import struct
+        for row in f.get("pssm", "").split("/"):
+            v = [struct.unpack("<f", struct.pack("<I", int(x)))[0] for x in row.split(",")]
+            if len(v) == 5 and v[4] > max(v[:4]):
+                keys.append("N-outweighs-every-base-in-some-row")
+                break
+    except (ValueError, struct.error):
+        pass
     return keys
 
 
@@ -82,12 +98,14 @@ SPEC = dict(
     id="C02",
     group="scan",
     props_file="C02.v",
+    more_props=[("C02Source.v", "LMScan.C02Source")],
+    translate=scan_skel.translate,
     module="LMScan.C02",
     harness_bin="scan",
     harness_args=["c02"],
     driver_args=["c02"],
     ml_modules=["scan_model"],
-    n={"quick": 1000, "thorough": 12000},
+    n={"quick": 1000, "thorough": 10000},
     search_n={"quick": 3000, "thorough": 20000},
     nontrivial=nontrivial,
     histogram=histogram,
